@@ -21,6 +21,9 @@ for path in sys.argv[1:]:
         for key, info in ks.items():
             if key.startswith("STATUS:"):
                 continue
+            if prop == "C19":
+                from props import c19
+                key = c19._norm(key)
             if (prop, key) in have:
                 continue
             ex = info["examples"][0] if info.get("examples") else {}
